@@ -196,6 +196,8 @@ ARTEFACTS = {
     "g_kb1_bytes": ["graph", "kb1", "bytes", "60", "{out}", "{alpha}"],
     "g_kb2_bytes": ["graph", "kb2", "bytes", "60", "{out}", "{alpha}"],
     "t_words": ["table", "words", "{out}"],
+    "t_layouts": ["table", "layouts", "{out}"],
+    "t_preds": ["table", "preds", "{out}"],
 }
 
 JOBS = {
@@ -204,7 +206,7 @@ JOBS = {
     "mc_set1": dict(kind="tlc", module="MC_Set1", cfg="MC_Set1.cfg", cont=False),
     "mc_set2": dict(kind="tlc", module="MC_Set2", cfg="MC_Set2.cfg", cont=False),
     "conf_frame": dict(kind="tlc", module="Conf_Frame", cfg="Conf_Frame.cfg",
-                       env={"GRAPH": "art:g_frame", "COMP": "frame"}),
+                       env={"GRAPH": "art:g_frame", "COMP": "frame", "WORDS": "art:t_words"}),
     "conf_set1": dict(kind="tlc", module="Conf_Set1", cfg="Conf_Set1.cfg",
                       env={"GRAPH": "art:g_set1", "COMP": "set1"}),
     "conf_set2": dict(kind="tlc", module="Conf_Set2", cfg="Conf_Set2.cfg",
@@ -214,7 +216,9 @@ JOBS = {
     "conf_kb2_bytes": dict(kind="tlc", module="Conf_Set2", cfg="Conf_Set2.cfg",
                            env={"GRAPH": "art:g_kb2_bytes", "COMP": "kb2"}),
     "conf_words": dict(kind="tlc", module="Conf_Words", cfg="Conf_Words.cfg",
-                       env={"WORDS": "art:t_words"}),
+                       env={"WORDS": "art:t_words", "GRAPH2": "art:g_set2"}),
+    "conf_layouts": dict(kind="tlc", module="Conf_Layouts", cfg="Conf_Layouts.cfg", workers=8, heap="8g",
+                         env={"TABLE": "art:t_layouts", "SOURCE": "impl"}, timeout=1200),
     "props_scan": dict(kind="tlc", module="Props_Scan", cfg="Props_Scan.cfg", workers=1,
                        env={"GRAPH1": "art:g_set1", "GRAPH2": "art:g_set2"}),
 }
@@ -230,6 +234,14 @@ PROPS = {
     "C07": dict(quick=["mc_set1", "mc_set2", "props_scan"], graphs=["g_set1", "g_set2"]),
     "C13": dict(quick=["props_scan"], graphs=["g_set1", "g_set2"]),
     "C19": dict(quick=["mc_set1", "mc_set2", "props_scan"], graphs=["g_set1", "g_set2"]),
+    "C03": dict(quick=["conf_layouts"], tables=["t_layouts"]),
+    "C09": dict(quick=["conf_layouts"], tables=["t_layouts"]),
+    "C10": dict(quick=["conf_layouts"], tables=["t_layouts"]),
+    "C11": dict(quick=["conf_layouts"], tables=["t_layouts"]),
+    "C12": dict(quick=["conf_layouts"], tables=["t_layouts"]),
+    "C15": dict(quick=["conf_layouts"], tables=["t_layouts"]),
+    "C16": dict(quick=["conf_layouts"], tables=["t_layouts"]),
+    "C17": dict(quick=["conf_layouts"], tables=["t_layouts"]),
 }
 
 
@@ -263,6 +275,12 @@ def canon_key(rec):
         return "injective comp=%s event=%s" % (rec.get("comp"), "/".join(map(str, rec["event"][1:])))
     if k == "makebreak":
         return "makebreak comp=%s seq=%s" % (rec.get("comp"), " ".join(hexb(b) for b in rec["seq"]))
+    if "cells" in rec and "layout" in rec:
+        dig = hashlib.sha256(json.dumps(sorted(rec["cells"])).encode()).hexdigest()[:10]
+        return "layout kind=%s obj=%s key=%s mode=%s ncells=%d digest=%s" % (
+            k, rec.get("obj"), rec.get("key"), rec.get("mode"), rec.get("ncells", 0), dig)
+    if k == "untypeable":
+        return "untypeable layout=%s mode=%s chars=%s" % (rec["layout"], rec["mode"], ",".join(map(str, sorted(rec["chars"]))))
     parts = ["%s=%s" % (a, json.dumps(rec[a], separators=(",", ":"), sort_keys=True))
              for a in sorted(rec) if a not in ("prop", "also", "note", "observed", "expected", "id", "post")]
     return "%s %s" % (k, " ".join(parts))
@@ -270,6 +288,8 @@ def canon_key(rec):
 
 def describe(rec):
     d = dict(rec)
+    if "cells" in d:
+        d["cells"] = sorted(d["cells"])[:6]
     d.pop("prop", None)
     d.pop("also", None)
     return json.dumps(d, separators=(",", ":"), sort_keys=True)[:400]
@@ -317,6 +337,8 @@ def write_replay(ctx, pid, n, rec, jobname):
     elif rec.get("kind") == "word":
         doc["component"] = "frame" if comp == "frame" else "kb2"
         doc["inputs"] = [["word", rec["word"]]]
+    elif "cells" in rec and "obj" in rec:
+        doc["cells"] = [[rec["obj"], rec["key"], c[0], rec["mode"]] for c in sorted(rec["cells"])[:32]]
     elif "seq" in rec:
         doc["component"] = comp
         doc["inputs"] = [["byte", b] for b in rec["seq"]]
@@ -329,6 +351,15 @@ def replay(path):
     doc = json.load(open(path))
     print("property:", doc.get("property"), " key:", doc.get("key"))
     print("spec/record:", json.dumps(doc.get("record"))[:1000])
+    if "cells" in doc:
+        subprocess.run(["cargo", "build", "--release", "--offline"], cwd=HARNESS,
+                       stdout=subprocess.DEVNULL, stderr=subprocess.DEVNULL)
+        tmp = path + ".cells.tmp"
+        json.dump(doc["cells"], open(tmp, "w"))
+        p = subprocess.run([PKV, "cells", tmp], stdout=subprocess.PIPE, text=True)
+        os.unlink(tmp)
+        print("re-execution against the current tree ([object, key, modifiers, mode] -> output):")
+        print(p.stdout)
     if "inputs" in doc and "component" in doc:
         subprocess.run(["cargo", "build", "--release", "--offline"], cwd=HARNESS,
                        stdout=subprocess.DEVNULL, stderr=subprocess.DEVNULL)
@@ -415,7 +446,7 @@ def run_check(pid, tier, seed):
         samples += [dict(x, artefact=g) for x in s[:2]]
     for tname in p.get("tables", []):
         path = ctx.art(tname)
-        impl_n += p.get("cells_per_record", {}).get(tname, 512 if tname == "t_words" else 1) * count_lines(path)
+        impl_n += p.get("cells_per_record", {}).get(tname, 512 if tname in ("t_words", "t_layouts") else 1) * count_lines(path)
         with open(path) as f:
             first = json.loads(f.readline())
         samples.append({"artefact": tname, "record": {k: (v[:4] if isinstance(v, list) else v) for k, v in first.items()}})
